@@ -51,9 +51,55 @@ def gen_generator_history(rng):
     return {"prog": "genctx", "ops": ops, "relax_inflight": True, "activation_inv": "C02.activation"}
 
 
+def gen_reactivation(rng, tier, quarantine=()):
+    """Probes on one function come and go, and selectors that were used before are used again by
+    new probes while others are live (instrumented variants and capture counts are kept between
+    probes): every stream is still exactly the binding history of its variable."""
+    prog, fns = fn_table("forms")
+    fns = [(q, f) for q, f in fns if not _quarantined(q, quarantine) and q not in GEN_FNS and f.get("kind", "plain") == "plain"]
+    qual, fnir = rng.choice(fns)
+    forms = ir.bound_names(fnir)
+    names = [n for n, f in forms.items() if f != {"decl"} and n not in fnir.get("free", ()) and n not in fnir.get("mutable", ())
+             and not _name_quarantined(qual, n, forms[n], quarantine)]
+    if not names:
+        return None
+    pool = [simple_sel(qual, focus=n, caps=[]) for n in rng.sample(names, min(len(names), 3))]
+    ops, live, n = [], [], 0
+    tl = 24 if tier == "quick" else 48
+    for _ in range(rng.randint(5, 12)):
+        r = rng.random()
+        if r < 0.4 and len(live) < 3:
+            import copy
+
+            pid = f"p{n}"
+            n += 1
+            ops.append({"op": "mk", "id": pid, "sels": [copy.deepcopy(rng.choice(pool))], "style": rng.randrange(2),
+                        "inv": "C02.stream", "raw": False})
+            ops.append({"op": "enter", "id": pid})
+            live.append(pid)
+        elif r < 0.65 and live:
+            ops.append({"op": "exit", "id": live.pop(rng.randrange(len(live)))})
+        else:
+            op = call_shape(rng, qual, fnir, "k1")
+            op["tape"] = gen_tape(rng, rng.randint(0, tl))
+            op["faults"] = gen_faults(rng, 30, rng.choice([0, 0, 1]))
+            ops.append(op)
+    op = call_shape(rng, qual, fnir, "k1")
+    op["tape"] = gen_tape(rng, rng.randint(0, tl))
+    op["faults"] = {}
+    ops.append(op)
+    for pid in live:
+        ops.append({"op": "exit", "id": pid})
+    return {"prog": "forms", "ops": ops, "activation_inv": "C02.activation"}
+
+
 def gen(rng, tier, quarantine=()):
     if "no-generator-histories" not in quarantine and rng.random() < 0.08:
         return gen_generator_history(rng)
+    if rng.random() < 0.08:
+        sc = gen_reactivation(rng, tier, quarantine)
+        if sc is not None:
+            return sc
     prog, fns = fn_table("forms")
     fns = [(q, f) for q, f in fns if not _quarantined(q, quarantine)]
     qual, fnir = rng.choice(fns)
